@@ -21,7 +21,32 @@ pub fn geometry_of(m: &Model) -> Value {
                 .collect(),
             None => vec![],
         };
+        // geometric normal of the posed polygon (Newell's method on the global corner points), 1e-4
+        let pts: Vec<[f64; 3]> = match g.to_global_coords_matrix() {
+            Some(tr) => g.polygon.iter().map(|p| { let q = tr * nalgebra::point![p.x, p.y, 0.0]; [q.x as f64, q.y as f64, q.z as f64] }).collect(),
+            None => vec![],
+        };
+        let mut n = [0.0f64; 3];
+        for i in 0..pts.len() {
+            let (a, b) = (pts[i], pts[(i + 1) % pts.len()]);
+            n[0] += (a[1] - b[1]) * (a[2] + b[2]);
+            n[1] += (a[2] - b[2]) * (a[0] + b[0]);
+            n[2] += (a[0] - b[0]) * (a[1] + b[1]);
+        }
+        let l = (n[0] * n[0] + n[1] * n[1] + n[2] * n[2]).sqrt();
+        let unit = |v: f64| -> Value { if l > 1e-12 { json!((v / l * 10000.0).round() as i64) } else { json!(0) } };
+        // the normal the reported tilt and azimuth stand for: Rz(azimuth) Rx(tilt) (0, 0, +-1), sign = winding of the polygon
+        let mut a2 = 0.0f64;
+        for i in 0..g.polygon.len() {
+            let (p, q) = (g.polygon[i], g.polygon[(i + 1) % g.polygon.len()]);
+            a2 += (p.x as f64) * (q.y as f64) - (q.x as f64) * (p.y as f64);
+        }
+        let sgn = if a2 < 0.0 { -1.0 } else { 1.0 };
+        let (t, az) = ((g.tilt as f64).to_radians(), (g.azimuth as f64).to_radians());
+        let r4 = |v: f64| -> Value { json!((v * 10000.0).round() as i64) };
         json!({"corners": corners, "tilt": mm(g.tilt / 10.0), "azimuth": mm(g.azimuth / 10.0),
+            "normal": [unit(n[0]), unit(n[1]), unit(n[2])],
+            "nrep": [r4(sgn * az.sin() * t.sin()), r4(-sgn * az.cos() * t.sin()), r4(sgn * t.cos())],
             "area": mm(area * 10.0), "haspos": g.position.is_some()})
     };
     json!({
